@@ -769,6 +769,8 @@ class Engine:
             return V(FN, ("builtin", n))
         if n in self.R.specfns or n in self.R.ufs:
             return V(FN, ("spec", n))
+        if n == "math":
+            return V(Kind("module"), "math")
         try:
             self.P.find_class(n)
             return V(Kind("type"), n)
